@@ -341,6 +341,25 @@ impl VersionManager {
         inner.dvs.get(&(table_id, dv_id)).unwrap().clone()
     }
 
+    /// (verification hook) see `SecondaryStorage::verif_pinned_rowsets`.
+    #[cfg(feature = "verif")]
+    pub fn verif_pinned_rowsets(&self) -> Vec<(u64, usize, Vec<(u32, u32)>)> {
+        let inner = self.inner.lock();
+        let mut out = vec![];
+        for (epoch, cnt) in &inner.ref_cnt {
+            let mut rowsets = vec![];
+            if let Some(snapshot) = inner.status.get(epoch) {
+                for (table_id, set) in &snapshot.rowsets {
+                    rowsets.extend(set.iter().map(|r| (*table_id, *r)));
+                }
+            }
+            rowsets.sort_unstable();
+            out.push((*epoch, *cnt, rowsets));
+        }
+        out.sort();
+        out
+    }
+
     pub async fn find_vacuum(self: &Arc<Self>) -> StorageResult<Vec<(u32, u32)>> {
         let mut inner = self.inner.lock();
         let min_pinned_epoch = inner.ref_cnt.keys().min().cloned();
